@@ -12,8 +12,11 @@ PROP = {'title': 'bitfield is observationally a set of enumerators',
  'level_note': 'enums with more than 9 enumerators only on the structured family; expression trees exhaustively to depth 2, depth 3 '
                '(thorough) over the distinct storage values of the depth<=2 trees; the storage array is read only to classify the '
                'signature of an already established violation (suffix :padding_bits_observable = storage bits at or above the enum size '
-               'are set and ==/hash/is_subset_eq see them, the F14 class); proxy=proxy:not_assigned = x[e] = x[e2] between two '
-               'non-const proxies rebinds the temporary proxy instead of copying the bit',
+               'are set and ==/hash/is_subset_eq see them, the F14 class); proxy_assign:<form>:destination|source_modified|return = an '
+               'assignment through bitfield::reference in the named value category did not make the destination bit equal to the source '
+               'bit, changed something else, or returned a reference that is not the destination (temp_source on one bitfield is the '
+               "former finding 'x[e] = x[e2] rebinds the temporary proxy'); proxy_xfer/proxy_chain use a reduced family of sets and, for "
+               'more than 9 enumerators, the enumerators on both sides of every 8/16/32-bit word boundary plus first/middle/last',
  'binaries': [{'name': 'C10',
                'sources': ['harness/C10.cpp', 'harness/C10_b.cpp', 'harness/C10_c.cpp', 'harness/C10_d.cpp'],
                'libs': [],
@@ -22,17 +25,29 @@ PROP = {'title': 'bitfield is observationally a set of enumerators',
  'rule': 'nested loops over explicit domains: all 2^n subsets for n<=9 enumerators (family of empty/full/singletons/co-singletons/'
          'prefixes/suffixes/even/odd/per-word sets/word-boundary pairs for n=16,17,33,64; boundary members only for 33 and 64 in the quick '
          'tier) x word types u8,u16,u32,u64; per subset: 10 ways of construction, ~ and self operations, set/get/operator[]/proxy per '
-         'enumerator, x[e]=x[e2] per enumerator pair; per ordered pair of operands (each set as built by set() and as ~ of its '
+         'enumerator; proxy assignment in every value category (15 forms: source temporary / named / named const / std::move(named) / '
+         'copy- and move-constructed proxy / const_reference temporary and named / bool from get and from a cast / set(e, proxy) / swap via '
+         'bool, destination temporary or named, return value checked) with model destination bit := source bit and nothing else changes: '
+         'proxy_copy = one bitfield x[e]=x[e2] for every subset and (e,e2), plus p=p and two proxies of one bit; proxy_xfer = two '
+         'different bitfields a[e]=b[f] (same and different enumerator, equal and different contents; all 8x8 pairs of subsets and all '
+         '(e,f) for 3 enumerators; for 8/9 enumerators every subset (thorough) or the family empty/full/even/odd/singletons/co-singletons '
+         '(quick) x that family x all (e,f); for larger enums the family at the word-boundary enumerators) incl. conversion of const and '
+         'non-const proxies to value_type; proxy_chain = x[e]=y[f]=z[g] with temporaries, named proxies, a bool tail and a const tail over '
+         'three bitfields in the 5 aliasing patterns (a,b,c)(a,a,a)(a,b,a)(a,a,b)(a,b,b), all triples of subsets for <=3 enumerators, of '
+         'empty/full/even/odd otherwise; object(other.array()) and x.array()=other.array() copies; per ordered pair of operands (each set as built by set() and as ~ of its '
          'complement): | & ^ |= &= ^= and A&~B, then == != hash std::hash is_subset_eq; expression trees over leaves L0..L3 with nodes '
          '~, set(first,true), set(last,false), |e, | & ^ |= &= ^=. Oracle = std::set<int> arithmetic; every result must have the '
          'reference members (get) and be ==, hash-equal and mutually is_subset_eq to the same set built with set(). Non-trivial: '
          'construct/self: non-empty set; not: the last storage word has unused bits; element: more than one enumerator; proxy_copy: '
-         'source and target membership differ; binary_ops: A and B intersect and differ (|,&,^ give three different non-empty sets); '
+         'source and target membership differ; proxy_xfer: destination and source bit differ; proxy_chain: the tail bit differs from '
+         'one of the two destinations; binary_ops: A and B intersect and differ (|,&,^ give three different non-empty sets); '
          'relations: equal sets in different representations, or one a proper subset of the other; expr: the top operator yields a set '
          'different from its operands. Cases are distinct argument tuples / expression texts (each expr3 shard additionally announces '
          'one bookkeeping case for the unchecked recomputation of its operands)',
  'assumptions': ['enumerators are exactly 0..fcppt_maximum (fcppt.enum requirement); values outside are a precondition violation and not used',
-                 'object(no_init), object(array_type) and the mutable array() accessor expose raw storage and are outside the set abstraction',
+                 'object(no_init) and arbitrary words written through object(array_type) / array() expose raw storage and are outside the set '
+                 'abstraction (only copies of another bitfield\'s array are used)',
+                 'the state of a moved-from proxy is not inspected',
                  'depth-3 expression trees are enumerated modulo identical operand storage (operators are pure functions of their operands)',
                  'hash is only required to be equal for equal sets; collisions between different sets are counted as information',
                  'underlying_value and output are not part of the statement and not checked']}
